@@ -68,7 +68,10 @@ Show(e) ==
 VARIABLES toks, res, done
 vars == <<toks, res, done>>
 Strings == UNION { [1..k -> Tokens] : k \in 0..MaxLen }
-Init == toks \in Strings /\ res = Fail /\ done = FALSE
+\* the strings are enumerated as first token + rest: a single set of all strings of length 7 exceeds TLC's set-size limit
+Init == /\ \/ toks = << >>
+           \/ \E t \in Tokens : \E r \in UNION { [1..k -> Tokens] : k \in 0..(MaxLen - 1) } : toks = <<t>> \o r
+        /\ res = Fail /\ done = FALSE
 Step == /\ ~done
         /\ res' = Parse(toks)
         /\ (Emit => PrintT(<<"T", ToJson([toks |-> toks, ok |-> res'.ok,
